@@ -993,6 +993,17 @@ func dischargeIndexSite(c *Check, ca *cursorAnalysis, s IndexSite) (discharge, b
 			}
 		}
 	case *ssa.IndexAddr:
+		// t.list[len(t.list)-1] under the node's verified predicate hasMatchAllX(t) (true ⇒ len > 0)
+		for nm, field := range hasMatchAllList {
+			if root, ok := lastElemAddrOwner(x, field); ok {
+				g := union(p.lemmaEdges(fn, vIs(root), nm, true), edgesWhere(fn, cCmp(token.GTR, vLen(vField(vIs(root), field)), vConstInt(0)), true))
+				if len(g) > 0 {
+					if ok2, _ := guardedBy(fn, g, isInstr(x)); ok2 {
+						return discharge{"last-of-non-empty", field + "[len-1] is read only where " + nm + "() held (its definition is verified: true ⇒ len > 0) or len > 0 was tested"}, true
+					}
+				}
+			}
+		}
 		// x[i] inside `for i := 0; i < len(x); i++` where x is the same field path read again
 		if how, ok := dischargeLoopBoundedIndex(fn, x); ok {
 			return how, true
@@ -1413,6 +1424,15 @@ func checkRoutingAssertions(c *Check) {
 						meth = "(route.Leaf).getMatchStyle"
 					}
 					g := edgesWhere(fn, cCmp(token.EQL, vCall(meth, vIs(x.X)), vConstInt(kAll)), true)
+					// or the node's verified predicate on the owner of the list whose last element is asserted
+					for nm, field := range hasMatchAllList {
+						if (nm == "hasMatchAllLeaf") != (tn == "matchAllLeaf") {
+							continue
+						}
+						if root, ok := lastElemOwner(x.X, field); ok {
+							g = union(g, p.lemmaEdges(fn, vIs(root), nm, true))
+						}
+					}
 					ok, path := guardedBy(fn, g, isInstr(in))
 					if ok && len(g) > 0 {
 						c.OK(key, p.Pos(x.Pos()), "assertion to "+tn+" guarded by getMatchStyle() == all on the same value", numInstrs(fn))
@@ -1840,4 +1860,39 @@ func coPopulated(p *Prog, a, b *types.Var) bool {
 		})
 	}
 	return ok && n > 0
+}
+
+// lastElemAddrOwner: ia is &root.field[len(root.field)-1]; returns root.
+func lastElemAddrOwner(ia *ssa.IndexAddr, field string) (ssa.Value, bool) {
+	root, names, ok := fieldPath(ia.X)
+	if !ok || len(names) == 0 || names[len(names)-1] != field {
+		return nil, false
+	}
+	names = names[:len(names)-1]
+	if len(names) != 0 {
+		// embedded baseTree: t.baseTree.leaves read through the outer node is still the node's list
+		for _, n := range names {
+			if n != "baseTree" {
+				return nil, false
+			}
+		}
+	}
+	list := vField(vIs(root), field)
+	if !vBin(token.SUB, vLen(list), vConstInt(1))(ia.Index) {
+		return nil, false
+	}
+	return root, true
+}
+
+// lastElemOwner: v is the value root.field[len(root.field)-1].
+func lastElemOwner(v ssa.Value, field string) (ssa.Value, bool) {
+	u, ok := strip(v).(*ssa.UnOp)
+	if !ok || u.Op != token.MUL {
+		return nil, false
+	}
+	ia, ok := u.X.(*ssa.IndexAddr)
+	if !ok {
+		return nil, false
+	}
+	return lastElemAddrOwner(ia, field)
 }
